@@ -26,7 +26,8 @@ def texts_for(rng, cfg, k):
                     del st[2:]
             out.append(g.render(flat))
         else:
-            out.append(rng.choice(["", "a =", "GROUP = g", "a = (1,", "a = \x01", "x", "a = 1 END garbage ("]))
+            out.append(rng.choice(["", "a =", "GROUP = g", "a = (1,", "a = \x01", "x", "a = 1 END garbage (",
+                                   "a = */", "a = b*/ c = 1", "a = half*/", "x = a/*b", "w = ok", "a = #x"]))
     return out
 
 
@@ -119,7 +120,9 @@ def run(ctx):
     # decoders
     for name in io.DECODERS:
         g, d = io.make_decoder(name)
-        for lit in gen.literal_matrix("OMNI")[:: (1 if ctx.thorough() else 7)]:
+        from .c17 import POOL as _POOL
+        words = ["plain", "half*/", "*/", "/*", "a/*b", "x#y", "ok"] + _POOL
+        for lit in gen.literal_matrix("OMNI")[:: (1 if ctx.thorough() else 7)] + words:
             def dec(dd):
                 try:
                     return repr(dd.decode_simple_value(lit))
